@@ -211,7 +211,11 @@ theorem readVarInt_eof {b : Bytes} (h : readVarInt b = .error .eof) : b = [] := 
         · exact readVarPayload_ne_eof _ _ _ h
         · exact readVarPayload_ne_eof _ _ _ h
 
-theorem decodeLoop_sound (known : Known) (p2p : Bool) :
+/-- side condition of the canonicity theorems: no known record uses the `DBigSize` decoder (the
+    only decoder of the universe that does not consume exactly the declared length). -/
+def NoBigsize (known : Known) : Prop := ∀ t, isBigsizeFor known t = false
+
+theorem decodeLoop_sound (known : Known) (p2p : Bool) (hnb : NoBigsize known) :
     ∀ (fuel min : Nat) (ov : Bool) (b : Bytes) (rs : List Rec), min < two64 →
       decodeLoop known p2p fuel min ov b = .ok rs →
       Canonical known p2p (lob min ov) rs ∧ b = encodeStream rs := by
@@ -237,6 +241,8 @@ theorem decodeLoop_sound (known : Known) (p2p : Bool) :
           split at h
           · cases h
           · rename_i hp2p
+            rw [hnb typ] at h
+            simp only [Bool.false_eq_true, if_false] at h
             split at h
             · cases h
             · rename_i hlen
@@ -293,7 +299,7 @@ theorem encodeRec_length_ge (r : Rec) : 2 ≤ (encodeRec r).length := by
   have h2 := varIntSize_pos r.2.length
   omega
 
-theorem decodeLoop_complete (known : Known) (p2p : Bool) :
+theorem decodeLoop_complete (known : Known) (p2p : Bool) (hnb : NoBigsize known) :
     ∀ (rs : List Rec) (fuel min : Nat) (ov : Bool), Canonical known p2p (lob min ov) rs →
       (encodeStream rs).length < fuel →
       decodeLoop known p2p fuel min ov (encodeStream rs) = .ok rs := by
@@ -338,6 +344,8 @@ theorem decodeLoop_complete (known : Known) (p2p : Bool) :
         · have := hp rfl
           simp; exact this
       rw [hp2]
+      simp only [Bool.false_eq_true, if_false]
+      rw [hnb typ]
       simp only [Bool.false_eq_true, if_false]
       rw [hlen]
       simp only [Bool.not_true, Bool.false_eq_true, if_false]
